@@ -355,6 +355,43 @@ func boundOtherPrec(a, v cty.Value) bool {
 	return hit(lo, loInc) || hit(hi, hiInc)
 }
 
+// anyBoundOtherPrec: somewhere inside the operands there is an unknown number
+// with an inclusive bound, and a known non-integer number, equal in exact value
+// but of different precision
+func anyBoundOtherPrec(vs ...cty.Value) bool {
+	var bounds, nums []*big.Float
+	for _, v := range vs {
+		u, _ := v.UnmarkDeep()
+		cty.Walk(u, func(_ cty.Path, x cty.Value) (bool, error) {
+			if x.Type() != cty.Number || x.IsNull() {
+				return true, nil
+			}
+			if x.IsKnown() {
+				if f := x.AsBigFloat(); !f.IsInt() && !f.IsInf() {
+					nums = append(nums, f)
+				}
+				return true, nil
+			}
+			r := x.Range()
+			if lo, inc := r.NumberLowerBound(); inc && lo.IsKnown() && !lo.AsBigFloat().IsInf() {
+				bounds = append(bounds, lo.AsBigFloat())
+			}
+			if hi, inc := r.NumberUpperBound(); inc && hi.IsKnown() && !hi.AsBigFloat().IsInf() {
+				bounds = append(bounds, hi.AsBigFloat())
+			}
+			return true, nil
+		})
+	}
+	for _, b := range bounds {
+		for _, f := range nums {
+			if b.Cmp(f) == 0 && b.Prec() != f.Prec() {
+				return true
+			}
+		}
+	}
+	return false
+}
+
 // c01Sig names the root cause of a predicate failure as tightly as the
 // witness allows; anything unrecognised keeps the generic reason and the op.
 func c01Sig(p c01Pending, why string) string {
@@ -418,7 +455,7 @@ func c01Sig(p c01Pending, why string) string {
 				if isFalse && (setWithPartlyUnknownMember(a) || setWithPartlyUnknownMember(b)) {
 					return "equals-false-for-set-with-partly-unknown-member"
 				}
-				if isFalse && (boundOtherPrec(a, b) || boundOtherPrec(b, a)) {
+				if isFalse && (boundOtherPrec(a, b) || boundOtherPrec(b, a) || anyBoundOtherPrec(a, b)) {
 					return "inclusive-bound-equal-in-value-other-precision"
 				}
 			}
@@ -470,6 +507,59 @@ func c01What(p c01Pending, why string) string {
 	return "the result of " + p.op + " on weakened operands does not admit the result on the original operands"
 }
 
+// c01Corpus: minimised witnesses of every recorded finding (and of repaired
+// defects), replayed first on every run so that each KNOWN-FINDING line is
+// reproduced deterministically and a repair shows up as a passing case.
+type c01Case struct {
+	op   string
+	o, w []cty.Value
+}
+
+func c01Corpus() []c01Case {
+	one := cty.NumberIntVal(1)
+	maxu := cty.MustParseNumberVal("18446744073709551615")
+	uMax := cty.UnknownVal(cty.Number).Refine().NumberRangeUpperBound(cty.NumberUIntVal(18446744073709551615), true).NewValue()
+	q := cty.NumberFloatVal(0.25)
+	setL := cty.SetVal([]cty.Value{cty.ListVal([]cty.Value{one})})
+	listT := cty.ListVal([]cty.Value{cty.True})
+	setT := cty.SetVal([]cty.Value{cty.TupleVal([]cty.Value{cty.True})})
+	f := cty.NumberFloatVal(1e-100)
+	g := cty.NumberVal(new(big.Float).SetPrec(512).Set(f.AsBigFloat()))
+	uAtF := cty.UnknownVal(cty.Number).Refine().NumberRangeLowerBound(g, true).NewValue()
+	nd := cty.NullVal(cty.DynamicPseudoType)
+	return []c01Case{
+		{"haselement", []cty.Value{setL, cty.ListVal([]cty.Value{one})}, []cty.Value{setL, cty.ListVal([]cty.Value{cty.UnknownVal(cty.Number)})}},
+		{"equals", []cty.Value{listT, listT}, []cty.Value{cty.ListVal([]cty.Value{cty.DynamicVal}), cty.UnknownVal(cty.List(cty.Bool))}},
+		{"equals", []cty.Value{cty.TupleVal([]cty.Value{cty.StringVal("a")}), cty.TupleVal([]cty.Value{cty.StringVal("a")})},
+			[]cty.Value{cty.TupleVal([]cty.Value{cty.DynamicVal}), cty.UnknownVal(cty.Tuple([]cty.Type{cty.String}))}},
+		{"equals", []cty.Value{setT, setT}, []cty.Value{setT, cty.SetVal([]cty.Value{cty.TupleVal([]cty.Value{cty.UnknownVal(cty.Bool)})})}},
+		{"haselement", []cty.Value{cty.SetVal([]cty.Value{cty.ListValEmpty(cty.Number)}), cty.ListValEmpty(cty.Number)},
+			[]cty.Value{cty.SetVal([]cty.Value{cty.UnknownVal(cty.List(cty.Number))}), cty.UnknownVal(cty.List(cty.DynamicPseudoType))}},
+		{"add", []cty.Value{maxu, q}, []cty.Value{uMax, q}},
+		{"length", []cty.Value{cty.EmptyObjectVal}, []cty.Value{cty.UnknownVal(cty.EmptyObject)}},
+		{"mod", []cty.Value{cty.NullVal(cty.Number), cty.NumberIntVal(0)}, []cty.Value{cty.NullVal(cty.Number), cty.UnknownVal(cty.Number)}},
+		{"equals", []cty.Value{f, f}, []cty.Value{f, uAtF}},
+		{"not", []cty.Value{nd}, []cty.Value{nd}},
+		{"getattr", []cty.Value{nd, cty.StringVal("a")}, []cty.Value{nd, cty.StringVal("a")}},
+		{"index", []cty.Value{nd, cty.StringVal("k")}, []cty.Value{nd, cty.StringVal("k")}},
+		{"hasindex", []cty.Value{nd, cty.StringVal("k")}, []cty.Value{nd, cty.StringVal("k")}},
+		// lt with an inclusive bound at the value (seeded change C01/m1), equals against a type constraint
+		// holding the placeholder inside (C01/m2): must pass on the unchanged tree
+		{"lt", []cty.Value{cty.NumberIntVal(5), cty.NumberIntVal(5)},
+			[]cty.Value{cty.UnknownVal(cty.Number).Refine().NumberRangeUpperBound(cty.NumberIntVal(5), true).NewValue(), cty.NumberIntVal(5)}},
+		{"notequal", []cty.Value{cty.ListVal([]cty.Value{cty.StringVal("a")}), cty.ListVal([]cty.Value{cty.StringVal("a")})},
+			[]cty.Value{cty.ListVal([]cty.Value{cty.StringVal("a")}), cty.UnknownVal(cty.List(cty.DynamicPseudoType))}},
+	}
+}
+
+func c01IncludesCorpus() [][2]cty.Value {
+	f := cty.NumberFloatVal(1e-100)
+	g := cty.NumberVal(new(big.Float).SetPrec(512).Set(f.AsBigFloat()))
+	return [][2]cty.Value{
+		{cty.UnknownVal(cty.Number).Refine().NumberRangeLowerBound(g, true).NewValue(), f},
+	}
+}
+
 func runC01(ctx *Ctx) {
 	// two streams of operand tuples: wholly known ones (the tuples of the
 	// property's quantifier: judged, and compared with the model), and tuples that
@@ -478,13 +568,60 @@ func runC01(ctx *Ctx) {
 		{Null: true, Marks: true, Small: true},
 		{Unknown: true, Null: true, Marks: true, DynVal: true, Small: true},
 	}
-	n := ctx.N(300, 7000)
+	n := ctx.N(1200, 7000)
 	perTuple := 2
 	var pend []c01Pending
 	var lines []string
 	push := func(p c01Pending, line string) {
 		pend = append(pend, p)
 		lines = append(lines, line)
+	}
+	specByName := map[string]opSpec{}
+	for _, s := range opSpecs {
+		specByName[s.name] = s
+	}
+	// one concrete tuple: correspondence + converse clauses; its weakenings: correspondence + soundness
+	doTuple := func(s opSpec, args []cty.Value, weak [][]cty.Value, stats []*wkStats, judge bool) {
+		nOps := len(args)
+		if s.name == "getattr" {
+			nOps = 1
+		}
+		out, ro, po := opOut(func() cty.Value { return s.call(args) })
+		w := s.wire(args)
+		ctx.Add("op."+s.name, out, w...)
+		push(c01Pending{kind: "known", op: s.name, os: args[:nOps], ro: ro, po: po, wireKey: s.name + " " + strings.Join(w, " ")},
+			"judge.c01.known "+s.name+" "+strings.Join(w[:nOps], " ")+" "+outcomeWire(ro, po))
+		for k, ws := range weak {
+			outW, rw, pw := opOut(func() cty.Value { return s.call(ws) })
+			ww := s.wire(ws)
+			ctx.Add("op."+s.name, outW, ww...)
+			if !judge {
+				continue
+			}
+			positions := 1
+			if stats != nil {
+				st := stats[k]
+				positions = st.positions
+				for kind, c := range st.kinds {
+					ctx.res.Dist["weaken:"+kind] += c
+				}
+				if st.frontier {
+					ctx.Tag("weaken:frontier-nested-dynamic")
+				}
+			}
+			key := s.name + " " + strings.Join(w, " ") + " => " + strings.Join(ww, " ")
+			ctx.Eval(key, positions > 0 && !po)
+			verb := "judge.c01.sound2 "
+			if nOps == 1 {
+				verb = "judge.c01.sound1 "
+			}
+			push(c01Pending{kind: "sound", op: s.name, os: args, ws: ws, ro: ro, rw: rw, po: po, pw: pw, wireKey: key},
+				verb+strings.Join(w[:nOps], " ")+" "+strings.Join(ww[:nOps], " ")+" "+outcomeWire(ro, po)+" "+outcomeWire(rw, pw))
+		}
+	}
+	for _, c := range c01Corpus() {
+		ctx.Tag("corpus")
+		doTuple(specByName[c.op], c.o, [][]cty.Value{c.w}, nil, true)
 	}
 	for _, s := range opSpecs {
 		for i := 0; i < 2*n; i++ {
@@ -498,47 +635,31 @@ func runC01(ctx *Ctx) {
 				// a null of the dynamic pseudo-type is a wholly known value too
 				args[ctx.R.Intn(nOps)] = cty.NullVal(cty.DynamicPseudoType)
 			}
-			out, ro, po := opOut(func() cty.Value { return s.call(args) })
-			w := s.wire(args)
-			ctx.Add("op."+s.name, out, w...)
-			// converse clauses on the concrete run
-			push(c01Pending{kind: "known", op: s.name, os: args[:nOps], ro: ro, po: po, wireKey: s.name + " " + strings.Join(w, " ")},
-				"judge.c01.known "+s.name+" "+strings.Join(w[:nOps], " ")+" "+outcomeWire(ro, po))
+			var weak [][]cty.Value
+			var stats []*wkStats
 			for k := 0; k < perTuple; k++ {
 				wo := wkOpts{p: 0.22, dynTop: true, frontier: k == 1 && ctx.R.Intn(3) == 0}
 				ws, st := weakenTuple(ctx, args, func(i int) bool { return i >= nOps }, wo)
-				outW, rw, pw := opOut(func() cty.Value { return s.call(ws) })
-				ww := s.wire(ws)
-				ctx.Add("op."+s.name, outW, ww...)
-				if stream != 0 {
-					continue
-				}
-				for kind, c := range st.kinds {
-					ctx.res.Dist["weaken:"+kind] += c
-				}
-				if st.frontier {
-					ctx.Tag("weaken:frontier-nested-dynamic")
-				}
-				key := s.name + " " + strings.Join(w, " ") + " => " + strings.Join(ww, " ")
-				ctx.Eval(key, st.positions > 0 && !po)
-				verb := "judge.c01.sound2 "
-				if nOps == 1 {
-					verb = "judge.c01.sound1 "
-				}
-				push(c01Pending{kind: "sound", op: s.name, os: args, ws: ws, ro: ro, rw: rw, po: po, pw: pw, wireKey: key},
-					verb+strings.Join(w[:nOps], " ")+" "+strings.Join(ww[:nOps], " ")+" "+outcomeWire(ro, po)+" "+outcomeWire(rw, pw))
+				weak = append(weak, ws)
+				stats = append(stats, st)
 			}
+			doTuple(s, args, weak, stats, stream == 0)
 		}
 	}
 	// ValueRange.Includes against what the range admits
-	for i := 0; i < ctx.N(3000, 60000); i++ {
-		t := genTy(ctx.R, 1, TyOpts{})
-		v := genVal(ctx.R, t, 2, ValOpts{Null: true, Small: true})
-		var a cty.Value
-		if ctx.R.Intn(2) == 0 {
-			a, _ = unknownTrueOf(ctx, v)
+	incCorpus := c01IncludesCorpus()
+	for i := 0; i < ctx.N(10000, 60000)+len(incCorpus); i++ {
+		var a, v cty.Value
+		if i < len(incCorpus) {
+			a, v = incCorpus[i][0], incCorpus[i][1]
 		} else {
-			a = genUnknown(ctx.R, t)
+			t := genTy(ctx.R, 1, TyOpts{})
+			v = genVal(ctx.R, t, 2, ValOpts{Null: true, Small: true})
+			if ctx.R.Intn(2) == 0 {
+				a, _ = unknownTrueOf(ctx, v)
+			} else {
+				a = genUnknown(ctx.R, t)
+			}
 		}
 		if a.IsKnown() || v.IsMarked() {
 			continue
@@ -597,4 +718,3 @@ func runC01(ctx *Ctx) {
 	}
 }
 
-var _ = big.NewFloat
